@@ -43,6 +43,19 @@ def goenv():
     return env
 
 
+def coqproject_text():
+    """_CoqProject is derived from the file tree: every .v under the listed directories."""
+    lines = ["-Q . GV",
+             "-arg -w -arg -notation-overridden,-deprecated-hint-without-locality,-deprecated-instance-without-locality"]
+    for d in ("Base", "Gen", "Monitors", "Model", "Proofs", "Properties"):
+        dd = os.path.join(COQ, d)
+        if os.path.isdir(dd):
+            for f in sorted(os.listdir(dd)):
+                if f.endswith(".v"):
+                    lines.append("%s/%s" % (d, f))
+    return "\n".join(lines) + "\n"
+
+
 class SplitMix64:
     def __init__(self, seed):
         self.s = seed & 0xFFFFFFFFFFFFFFFF
@@ -162,7 +175,7 @@ class Check:
         with BuildLock():
             tb = os.path.join(BIN, "translate")
             src = os.path.join(VERIF, "translate")
-            newest = max(os.path.getmtime(os.path.join(src, f)) for f in os.listdir(src))
+            newest = max(os.path.getmtime(os.path.join(src, f)) for f in os.listdir(src) if f.endswith((".go", ".mod")))
             if not os.path.exists(tb) or os.path.getmtime(tb) < newest:
                 env = dict(os.environ)
                 env["GOFLAGS"] = "-mod=mod"
@@ -171,7 +184,7 @@ class Check:
                 rc, out = run(["go", "build", "-o", tb, "."], cwd=src, env=env)
                 if rc != 0:
                     raise SystemExit("cannot build translator:\n" + out)
-            cmd = [tb, "-repo", REPO, "-cfg", os.path.join(src, "targets.json"), "-out", COQ]
+            cmd = [tb, "-repo", REPO, "-cfg", os.path.join(src, "targets.d"), "-out", COQ]
             if only:
                 cmd += ["-only", ",".join(only)]
             rc, out = run(cmd)
@@ -182,6 +195,10 @@ class Check:
     def _ensure_makefile(self):
         mk = os.path.join(COQ, "Makefile")
         cp = os.path.join(COQ, "_CoqProject")
+        txt = coqproject_text()
+        if not os.path.exists(cp) or open(cp).read() != txt:
+            with open(cp, "w") as f:
+                f.write(txt)
         if not os.path.exists(mk) or os.path.getmtime(mk) < os.path.getmtime(cp):
             rc, out = run(["coq_makefile", "-f", "_CoqProject", "-o", "Makefile"], cwd=COQ)
             if rc != 0:
@@ -261,7 +278,15 @@ class Check:
         return rc == 0, out
 
     # --------------------------------------------------------------------- go
+    def sync_gomod(self):
+        tpl = open(os.path.join(HARNESS, "go.mod.in")).read().replace("@REPO@", REPO)
+        dst = os.path.join(HARNESS, "go.mod")
+        if not os.path.exists(dst) or tpl.split("require")[0] not in open(dst).read() or ("=> " + REPO + "\n") not in open(dst).read():
+            with open(dst, "w") as f:
+                f.write(tpl)
+
     def sync_gosum(self):
+        self.sync_gomod()
         src = os.path.join(REPO, "go.sum")
         dst = os.path.join(HARNESS, "go.sum")
         if not os.path.exists(dst) or open(src).read() != open(dst).read():
